@@ -1,13 +1,53 @@
+import os
+
 from .props import HDR, standard
 
 
+def _replace():
+    """VERIF_REPLACE="rel/path.go=/abs/mutant.go[,...]": overlay-replace files of /repo by scratch copies
+    (used to check that the check has teeth; never set by registered commands)."""
+    r = {}
+    for kv in filter(None, os.environ.get("VERIF_REPLACE", "").split(",")):
+        k, v = kv.split("=", 1)
+        r[k] = v
+    return r or None
+
+
 def run(ctx):
-    n_choose = {"quick": 3000, "thorough": 60000}[ctx.tier]
+    quick = ctx.tier == "quick"
+    n_choose = 3000 if quick else 60000
+    n_runq = 1500 if quick else 40000
+    stride = 16 if quick else 1
 
     def stages(ctx, mult, suffix, off):
+        # ChooseInstanceType / EstimateScratchSpace (package dispatchcloud, exported API)
         ctx.stage("choose" + suffix, "lib/dispatchcloud", "dispatchcloud", ["C16/zz_verif_c16_test.go"], "TestVerifC16$",
                   n_choose * mult, HDR.format(imports="model.C16_model model.C16_run"), seed_offset=off, shard=400,
-                  env={"VERIF_STAGE": "choose" + suffix})
-    return standard(ctx, "C16", ["model/C16_run.vo"], stages,
-                    rule="",
-                    assumptions=[])
+                  env={"VERIF_STAGE": "choose" + suffix}, replace=_replace())
+        # (*Scheduler).runQueue against the recording scripted stub pool/queue (package scheduler)
+        rq_hdr = HDR.format(imports="model.C16_runq model.C16_runq_run")
+        ctx.stage("runq" + suffix, "lib/dispatchcloud/scheduler", "scheduler", ["C16/zz_verif_c16rq_test.go"], "TestVerifC16RQ$",
+                  n_runq * mult, rq_hdr, seed_offset=off, shard=400, env={"VERIF_STAGE": "runq" + suffix}, replace=_replace())
+        if not suffix:
+            # exhaustive small scope (all 1-container snapshots, 2-container snapshots with a restricted
+            # second container) x all small pool states; quick samples every 16th
+            ctx.stage("rqexh", "lib/dispatchcloud/scheduler", "scheduler", ["C16/zz_verif_c16rq_test.go"], "TestVerifC16RQExh$",
+                      0, rq_hdr, shard=400, env={"VERIF_STAGE": "rqexh", "VERIF_STRIDE": str(stride)}, timeout=1800,
+                      replace=_replace())
+    return standard(
+        ctx, "C16", ["model/C16_run.vo", "model/C16_runq_run.vo"], stages,
+        rule="choose: tables of 0-12 types (prices k/4 with many ties, twins, preemptible flags), one dimension (RAM after the "
+             "100/95 scaling, VCPUs, scratch incl. image estimate) placed at exact fit / one unit above / below a target type, "
+             "all ReserveExtraRAM values of the palette, int64-overflow and negative-spec strata, 12 PDH shapes; non-trivial = "
+             "at least 2 types.  runq: snapshots of 0-16 containers (distinct/tied/zero/negative priorities, all states), 1-3 "
+             "types, Unallocated/idle counts incl. inconsistent ones and missing keys, AtQuota/Create scripts that change "
+             "during the pass; non-trivial = at least 2 pool/queue calls.  distinct by hash of the case term.",
+        assumptions=[
+            "prices are compared as exact numbers: the harness uses float64 values k/4 (binary-exact), NaN prices are out of scope",
+            "Go map iteration order and the unstable sort.Slice are not controlled: the verdict accepts exactly the answers the model "
+            "can produce for SOME order (all permutations for <=5 types; proved order-independent characterisation above; all "
+            "arrangements of tied priorities for runQueue)",
+            "lockContainer goroutines are awaited by watching runtime.NumGoroutine(); their Lock calls are compared as a set",
+            "theorems about 'cheapest' assume RAM and VCPUs of configured types are >= 0 (C16_choose_needs_sane shows the code's "
+            "behaviour otherwise; the model reproduces it and the harness compares it on small tables)",
+        ])
